@@ -12,7 +12,7 @@ use selium_protocol::MessagePayload;
 use selium_std::traits::codec::{MessageDecoder, MessageEncoder};
 use serde::{Deserialize, Serialize};
 use std::time::Instant;
-use tokio::sync::{mpsc, Notify};
+use tokio::sync::{mpsc, Barrier};
 
 pub const SHORT_MS: u64 = 400;
 pub const LONG_MS: u64 = 8_000;
@@ -226,7 +226,9 @@ async fn run_typed<K: Kind>(addr: SocketAddr, certs: &Certs, c: &Case) -> Outcom
         Ok(c) => c,
         Err(e) => return Outcome::Inconclusive(format!("client connect: {e}")),
     };
-    let go = Arc::new(Notify::new());
+    // a barrier, not Notify::notify_waiters: a task that has not reached its wait point yet
+    // when the start signal is given must not miss it
+    let go = Arc::new(Barrier::new(nstreams * nclones + 1));
     let mut tasks = vec![];
     let mut idx = 0usize;
     let mut out_of_order_possible = false;
@@ -261,7 +263,7 @@ async fn run_typed<K: Kind>(addr: SocketAddr, certs: &Certs, c: &Case) -> Outcom
             let go = go.clone();
             let payload = c.payload;
             tasks.push(tokio::spawn(async move {
-                go.notified().await;
+                go.wait().await;
                 let mut out = vec![];
                 for (k, i) in my.into_iter().enumerate() {
                     let mut body = format!("s{s}c{cl}k{k}#{i}#").into_bytes();
@@ -280,8 +282,7 @@ async fn run_typed<K: Kind>(addr: SocketAddr, certs: &Certs, c: &Case) -> Outcom
             }));
         }
     }
-    tokio::time::sleep(Duration::from_millis(5)).await;
-    go.notify_waiters();
+    go.wait().await;
     let mut results = vec![];
     for t in tasks {
         match tokio::time::timeout(Duration::from_secs(60), t).await {
@@ -300,13 +301,13 @@ async fn run_typed<K: Kind>(addr: SocketAddr, certs: &Certs, c: &Case) -> Outcom
             Ok(b) => match b.open().await { Ok(r) => r, Err(e) => return Outcome::fail("requestor-open-failed", format!("{e}")) },
             Err(e) => return Outcome::Inconclusive(format!("{e}")),
         };
-        let go2 = Arc::new(Notify::new());
+        let go2 = Arc::new(Barrier::new(storm + 2));
         let mut ts = vec![];
         for i in 0..storm {
             let mut rq = base.clone();
             let go2 = go2.clone();
             ts.push(tokio::spawn(async move {
-                go2.notified().await;
+                go2.wait().await;
                 let t = Instant::now();
                 let r = rq.request(K::item(format!("storm#{i}").into_bytes())).await;
                 (r.map(|_| ()).map_err(|e| e.to_string()), t.elapsed())
@@ -314,13 +315,12 @@ async fn run_typed<K: Kind>(addr: SocketAddr, certs: &Certs, c: &Case) -> Outcom
         }
         let go3 = go2.clone();
         let control = tokio::spawn(async move {
-            go3.notified().await;
+            go3.wait().await;
             let t = Instant::now();
             tokio::time::sleep(Duration::from_millis(SHORT_MS)).await;
             t.elapsed()
         });
-        tokio::time::sleep(Duration::from_millis(5)).await;
-        go2.notify_waiters();
+        go2.wait().await;
         let control_elapsed = control.await.unwrap_or(Duration::from_secs(99));
         let mut worst = Duration::ZERO;
         for t in ts {
